@@ -359,7 +359,7 @@ def eval_dests(group, i):
     seen = []
     for rec in group:
         q = rec["q"]
-        key = ND.KEY_BYTES[q["id"]] if q["kind"] == "string" else ND.KEY_BYTES[q["id"]].decode()
+        key = meta["keys"][q["id"]] if q["kind"] == "string" else meta["keys"][q["id"]].decode()
         ok, r = guarded("get_dest", lambda: OB.ask_dest(doc, key), findings, "%s key %r" % (detail, key))
         if not ok:
             continue
@@ -402,17 +402,22 @@ def eval_outline(rec, i):
     ok, got = guarded("get_outlines", lambda: OB.outlines_with_frames(doc), findings, detail)
     if not ok:
         return findings, 0, 1, False, None
-    title_no = {ND.outline_title(j, variant): j for j in range(1, n + 1)}
-    real = [[lv, title_no.get(t, ("?", t))] for (lv, t, _d, _a, _f) in got]
+    title_of = lambda j: ND.outline_title(j, variant, meta["deep"])     # noqa: E731
+    shown = [[lv, t] for (lv, t, _d, _a, _f) in got]
+    want_t = [[e[0], title_of(e[1])] for e in rec["ref"]]
+    coded_t = [[e[0], title_of(e[1])] for e in rec["out"]]
     want = [[e[0], e[1]] for e in rec["ref"]]
     coded = [[e[0], e[1]] for e in rec["out"]]
+    # items are recognised by position (titles may be empty): the reported (level, title) sequence is the reference's,
+    # the as-coded machine's, or neither
+    real = want if shown == want_t else coded if shown == coded_t else [[lv, ("?", t)] for lv, t in shown]
     if real != want:
         if real == coded and "DropsUntargeted" in fired:
-            findings.append(("dev:DropsUntargeted", "get_outlines() reports %s, the outline holds %s (%s)" % (real, want, detail)))
+            findings.append(("dev:DropsUntargeted", "get_outlines() reports %s, the outline holds %s (%s)" % (shown, want_t, detail)))
         else:
-            titles_ok = all(not isinstance(x[1], tuple) for x in real)
-            key = "outline:title" if not titles_ok else "outline:level" if [x[1] for x in real] == [x[1] for x in want] else "outline:items"
-            findings.append((key, "get_outlines() reports %s, expected %s (%s)" % (real, want, detail)))
+            key = ("outline:level" if [x[1] for x in shown] == [x[1] for x in want_t] else
+                   "outline:title" if len(shown) == len(want_t) and [x[0] for x in shown] == [x[0] for x in want_t] else "outline:items")
+            findings.append((key, "get_outlines() reports %s, expected %s (%s)" % (shown, want_t, detail)))
     if real in (want, coded):
         coded_frames = {e[1]: e[2] for e in rec["out"]}
         for (lv, t, dest, action, frames), (_, item) in zip(got, real):
